@@ -178,6 +178,13 @@ def gen_eof_plan(rng, sc):
     it.top.append(Op('INIT', a=rng.randint(0, 1)))
     if sc.nconds() > 1 and rng.random() < 0.6:
         it.top.append(Op('BEGIN', a=rng.randint(0, sc.nconds() - 1)))
+    if rng.random() < 0.25:
+        # the scan starts on an in-memory copy; yywrap may answer its end
+        # with a stream (allow bit 4: see resolve() in sim_driver.c)
+        k = rng.choice(['SCAN_BYTES', 'SCAN_STRING'])
+        alpha = sc.alphabet if k != 'SCAN_STRING' else ([c for c in sc.alphabet if c] or [97])
+        it.top.append(Op(k, d=gen_input(rng, alpha, rng.choice([2, 3, 5, 12, 30]), stray=0.0)))
+        p.allow |= 16
     it.top.append(Op('LEX', a=rng.choice([5000, 5000, 3, 10])))
     # after termination
     for _ in range(rng.randint(0, 4)):
